@@ -183,6 +183,8 @@ def check(chk, repo):
     rep.fn("NI-shared", semi, "SemiSupervisedOPF.predict is SupervisedOPF.predict", semi.fq == sup.fq,
            "semi-supervised prediction is a separate function that this rule set did not analyse")
     chk.floor("k-nearest scans in predict methods", n, 2)
+    from ..common import check_model_premises
+    check_model_premises(rep, repo)
     chk.assumptions += ["effect summaries resolve callees by method name (over-approximation)",
                         "a fresh Subgraph/KNNSubgraph built inside predict shares no state with the model "
                         "except views of the caller's query rows"]
